@@ -26,6 +26,7 @@ RULE = (
 )
 RULE += '; the no-needless-delay condition is judged at arrival and at every instant of a wait'
 RULE += '; one decorator object may serve the function under test and a bystander; periods of minutes'
+RULE += '; the loop blocked across the instant a waiter was due (virtual CPU time); functools.partial of a coroutine function'
 LEVEL_TEXT = (
     "Validity predicates over exact virtual start times: no half-open period window with more than limit starts, starts "
     "in arrival order, no delay when the stated condition holds, every call ends with the function's own outcome; "
@@ -68,6 +69,10 @@ def run_case(case) -> Outcome:
     async def main(loop):
         async def fn(i):
             starts.append((i, loop.time() - t0))
+            if calls[i].get("busy"):
+                # the function does synchronous work first (virtual CPU time): the loop is blocked, timers that fall due
+                # meanwhile fire late - calls still begin when they actually begin
+                loop._vtime += calls[i]["busy"]
             if calls[i]["dur"] > 0:
                 await asyncio.sleep(calls[i]["dur"])
             if calls[i]["out"] == "exc":
@@ -88,7 +93,16 @@ def run_case(case) -> Outcome:
         # ONE decorator object (a reusable preset such as `limited = throttle(limit=2, period=1)`), applied to the function
         # under test and - for bystander == "same" - to a second function: each decorated function has its own window
         preset = None if form == "bare" else throttle(limit=limit, period=p)
-        wrapped = throttle(fn) if preset is None else preset(fn)
+        target = fn
+        if case.get("callable") == "partial":
+            # the throttled callable is a functools.partial of a coroutine function (no __name__, no __qualname__)
+            import functools
+
+            async def fn_with_prefix(_prefix, i):
+                return await fn(i)
+
+            target = functools.partial(fn_with_prefix, "p")
+        wrapped = throttle(target) if preset is None else preset(target)
 
         if case.get("bystander"):
             # a second, independently throttled function (much longer period) called at the same moments: the two
@@ -128,6 +142,9 @@ def run_case(case) -> Outcome:
         if t0:
             await asyncio.sleep(t0)
         tasks = [loop.create_task(caller(i)) for i in range(n)]
+        for at, x in case.get("blocks") or []:
+            # some unrelated callback does synchronous work for x (virtual) seconds at that moment: the loop is blocked
+            loop.call_at(t0 + at, lambda x=x: setattr(loop, "_vtime", loop._vtime + x))
         for i, c in enumerate(calls):
             if c.get("cancel_at") is not None:
                 loop.call_at(t0 + c["cancel_at"], tasks[i].cancel)
@@ -144,8 +161,12 @@ def run_case(case) -> Outcome:
     s_of = dict(starts)
     a_of = dict(arrivals)
     # (4) every call runs and returns the function's own outcome
-    any_cancel = any(c.get("cancel_at") is not None for c in calls)
+    # a cancelled waiter's slot is a grey area; with a blocked loop (busy) timers fire late, so "no needless delay" is not judged
+    any_cancel = any(c.get("cancel_at") is not None or c.get("busy") for c in calls) or bool(case.get("blocks"))
     for i in range(n):
+        if calls[i].get("busy") and calls[i].get("cancel_at") is None and i not in results and res.outcome != "hang":
+            out.violate("term", f"C15.term/call-never-finished/{cfg}", f"call {i}")
+            continue
         if calls[i].get("cancel_at") is not None:
             continue  # a cancelled caller ends cancelled (or finished earlier): its outcome is not the subject
         if i not in results:
@@ -263,6 +284,7 @@ def strategy(tier):
         else:
             arr = [draw(grid(0, 40)) for _ in range(n)]
         calls = []
+        busy_case = draw(st.integers(0, 3)) == 0
         for a in arr:
             dur = draw(st.sampled_from([0, 0, 0.125, period / 2 if (period / 2 * 8) % 1 == 0 else 0.25, period, 3 * period]))
             cancel_at = None
@@ -270,12 +292,29 @@ def strategy(tier):
                 # the caller is cancelled while waiting for its turn or while running; the window bound over the calls
                 # that DO start must still hold
                 cancel_at = a + draw(st.sampled_from([0.125, 0.25, 0.5, period / 2 if (period / 2 * 8) % 1 == 0 else 0.25]))
-            calls.append({"a": a, "dur": dur, "out": draw(st.sampled_from(["value", "value", "exc"])), "cancel_at": cancel_at})
+            busy = draw(st.sampled_from([0] * 7 + [0.375, 0.625, 1.5])) if busy_case else 0
+            calls.append({"a": a, "dur": dur, "out": draw(st.sampled_from(["value", "value", "exc"])), "cancel_at": cancel_at, **({"busy": busy} if busy else {})})
         # the pattern starts at an absolute time that is not a round number (nothing may depend on where the clock stands)
         t0 = draw(st.sampled_from([0, 0, 1 / 128, 37 / 128, 1000 + 5 / 1024]))
-        return {"limit": limit, "period": period, "form": form, "calls": calls, "t0": t0, "bystander": draw(st.sampled_from([False, False, False, True, "same"])), "in_scope": draw(st.integers(0, 3)) == 0}
+        return {"limit": limit, "period": period, "form": form, "calls": calls, "t0": t0, "bystander": draw(st.sampled_from([False, False, False, True, "same"])), "in_scope": draw(st.integers(0, 3)) == 0,
+                "callable": draw(st.sampled_from(["fn", "fn", "partial"]))}
 
-    return cases()
+    @st.composite
+    def blocked_release(draw):
+        """the loop is blocked (some callback doing synchronous work) across the instant at which a waiting call was due: the
+        waiter begins late, and the window of every later call is counted from when it actually began"""
+        limit = draw(st.integers(1, 2))
+        period = draw(st.sampled_from([1.0, 2.5]))
+        mk = lambda a: {"a": a, "dur": 0, "out": "value", "cancel_at": None}  # noqa: E731
+        first = [mk(0) for _ in range(limit)]
+        waiters = [mk(draw(st.sampled_from([0.125, 0.5]))) for _ in range(draw(st.integers(1, limit)))]
+        busy = draw(st.sampled_from([0.375, 0.625, 1.5]))
+        block = [period - draw(st.sampled_from([0.125, 0.25])), busy]
+        later = [mk(period + draw(st.sampled_from([0.25, 0.5, 1.0, 1.5, 2.0]))) for _ in range(draw(st.integers(1, 3)))]
+        return {"limit": limit, "period": period, "form": "float", "calls": [*first, *waiters, *later], "t0": draw(st.sampled_from([0, 37 / 128])), "bystander": False,
+                "in_scope": False, "blocks": [block]}  # fmt: skip
+
+    return st.one_of(cases(), cases(), cases(), cases(), blocked_release())
 
 
 def enumerate_cases(tier):
